@@ -432,29 +432,7 @@ def _epub(C, repo):
 def _mbox(C, repo):
     rel = EX + "mail/mbox_email_extractor.py"
     m = loader.module(rel, repo)
-    fn = m.functions.get("_split_mbox_messages")
-    oid = "C03/mbox_email_extractor.py::_split_mbox_messages/construction#messages-in-separator-order-at-most-one-per-separator"
-    if fn is None:
-        C.add(oid, None, "missing")
-    else:
-        rets = [n for n in ast.walk(fn) if isinstance(n, ast.Return) and isinstance(n.value, ast.Name)]
-        loops = find_loops(fn, lambda n: isinstance(n, ast.For) and "matches" in ast.unparse(n.iter))
-        if len(rets) != 1 or len(loops) != 1:
-            C.add(oid, None, "shape")
-        else:
-            lst, lp = rets[0].value.id, loops[0]
-            app = lambda n: method_call(n, lst, "append")
-            mut = lambda n: isinstance(n, ast.Call) and isinstance(n.func, ast.Attribute) and dotted(n.func.value) == lst and n.func.attr != "append"
-            ok, detail = per_iteration(lp, [app, mut], {(0, 0), (1, 0)})
-            mdef = [d for d in assigns_to(fn, "matches") if isinstance(d, ast.Assign)]
-            order = len(mdef) == 1 and "finditer(data)" in ast.unparse(mdef[0].value) and "sorted" not in ast.unparse(mdef[0].value) \
-                and "reversed" not in ast.unparse(lp.iter)
-            outside = [n for n in ast.walk(fn) if (app(n) or mut(n)) and not any(n is x for x in ast.walk(lp))]
-            if not order or outside:
-                C.add(oid, None, "match list is not finditer(data) in order, or message list mutated elsewhere")
-            else:
-                C.add(oid, ok, detail, f"{rel}:{lp.lineno}")
-                C.fn(m, "_split_mbox_messages")
+    # _split_mbox_messages is under a symbolic contract (shared with C16: contracts/C16.py::split_contract); no shape check here.
     fn = m.functions.get("read_mbox_format_mail")
     oid = "C03/mbox_email_extractor.py::read_mbox_format_mail/construction#one-EmailContent-per-message-in-order"
     if fn is None:
